@@ -9,8 +9,8 @@ from . import progs
 FLOOR = {"quick": 3000, "thorough": 20000}
 NGRAMMAR = {"quick": 4000, "thorough": 30000}
 NBASE = {"quick": 800, "thorough": 5000}
-HEADER = ("#![deny(warnings)]\n#![allow(dead_code, non_camel_case_types, non_snake_case, non_upper_case_globals, unused_imports, "
-          "unused_macros, unreachable_code, private_interfaces, private_bounds)]")
+# only lints that the *definitions themselves* (never used, private probe types) draw are allowed
+HEADER = "#![deny(warnings)]\n#![allow(dead_code, private_interfaces, private_bounds)]"
 D = "::dxrt::"
 ENUM_TRAITS = ["Copy", "Clone", "Debug", "Default", "PartialEq", "Eq", "PartialOrd", "Ord", "Hash"]
 SUPER = {"Copy": ["Clone"], "Eq": ["PartialEq"], "PartialOrd": ["PartialEq"], "Ord": ["PartialEq", "Eq", "PartialOrd"]}
@@ -239,6 +239,11 @@ def run(rep, tier, rng):
         else:
             rep.nontrivial.add((c.meta["src"], tuple(c.meta["traits"])))
         bad = [d for d in located_in_output(c) if not lint_allowed(d, allowed)]
+        if c.status == "compile_fail" and not bad and c.meta["src"] == "grammar":
+            # grammar cases contain nothing but the type definition, and the control (same definition without derive_ex)
+            # compiled warning-free under the same header: every denied lint is drawn by generated code, even when rustc
+            # attributes it to a user token whose span derive_ex reused (e.g. a helper fn named after a field)
+            bad = [d for d in c.diags if d["level"] == "error" and d["code"] and not d["code"].startswith("E") and not lint_allowed(d, allowed)]
         if c.status == "compile_fail" and not bad:
             # derive_ex gives many generated tokens the span of the user's field, so rustc may attribute an error in
             # generated code to user tokens.  The control compiled (grammar) / the program is well typed by construction
@@ -251,7 +256,8 @@ def run(rep, tier, rng):
             d = bad[0]
             ft = features(c.meta["spec"]) if c.meta["src"] == "grammar" else c.meta["src"]
             tr = "+".join(sorted(set(c.meta["spec"]["traits"]) & set(ENUM_TRAITS))) if c.meta["src"] == "grammar" else ""
-            sigs.setdefault(f"C20|{d['code']}|{(d['message'] or '')[:60]}", []).append((c, d, ft, tr))
+            msg = re.sub(r"\b([a-z_]*[a-z_])\d+\b", r"\1N", re.sub(r"`[a-z]\d+::", "`", d["message"] or ""))
+            sigs.setdefault(f"C20|{d['code']}|{msg[:60]}", []).append((c, d, ft, tr))
     for sig, lst in list(sigs.items())[:30]:
         # report the smallest witness
         c, d, ft, tr = min(lst, key=lambda x: len(x[0].code))
